@@ -172,6 +172,31 @@ Fixpoint h5_agree (a b : h5) {struct a} : bool :=
   | _, _ => false
   end.
 
+(* frame comparison for inference on arbitrary (possibly inconsistent) graphs: which type wins on an
+   inconsistent edge depends on the scheduling order, which no property constrains; what C10/C12 constrain is the
+   frame: names, order, kinds, every field other than a Conv's input_shape, edges, metadata — and which
+   types are defined afterwards (compared only when neither run raised) *)
+Definition ty_defined (t : ty) : bool := negb (ty_undef t).
+
+Definition fields_frame_agree (a b : list (string * pval)) : bool :=
+  val_agree (VDict (assoc_del "input_shape" a)) (VDict (assoc_del "input_shape" b)).
+
+Fixpoint node_frame_agree (types_too : bool) (a b : node) {struct a} : bool :=
+  match a, b with
+  | Leaf k1 f1 i1 o1, Leaf k2 f2 i2 o2 =>
+      kind_eqb k1 k2 && fields_frame_agree f1 f2 &&
+      (negb types_too || (Bool.eqb (ty_defined i1) (ty_defined i2) && Bool.eqb (ty_defined o1) (ty_defined o2)))
+  | Graph c1 e1 _ _ m1, Graph c2 e2 _ _ m2 =>
+      (fix go (l1 l2 : list (string * node)) : bool :=
+         match l1, l2 with
+         | [], [] => true
+         | (k1, x) :: r1, (k2, y) :: r2 => String.eqb k1 k2 && node_frame_agree types_too x y && go r1 r2
+         | _, _ => false
+         end) c1 c2
+      && edges_eqb e1 e2 && val_agree m1 m2
+  | _, _ => false
+  end.
+
 (* ---- generic cases shared by several properties ------------------------------------------------ *)
 Definition raised (o : outcome) : bool := match o with Finished => false | Raised _ => true end.
 
@@ -195,6 +220,7 @@ Inductive gcase :=
 | CBuild (e : nexpr) (obs : result node)            (* build with the constructors *)
 | CInfer (e : nexpr) (obs : result (node * bool))   (* build, infer_types(): graph after, raised? *)
 | CInfer2 (e : nexpr) (obs : result (node * bool))  (* ... twice *)
+| CInferFrame (twice : bool) (e : nexpr) (obs : result (node * bool))  (* frame only, see node_frame_agree *)
 | CCheck (e : nexpr) (obs : result bool)            (* build, _check_types(): True / raised *)
 | CFromList (es : list nexpr) (obs : result node)   (* NIRGraph.from_list(nodes...) *)
 | COps (e : nexpr) (ops : list op) (obs : result node)   (* build, then a history of operations *)
@@ -213,6 +239,11 @@ Definition gcheck (c : gcase) : bool :=
       res_agree (fun a b => node_agree (fst a) (fst b) && Bool.eqb (snd a) (snd b))
         (do g <- eval e; let '(g1, _) := infer_types g in
          let '(g2, oc) := infer_types g1 in Ok (g2, raised oc)) obs
+  | CInferFrame twice e obs =>
+      res_agree (fun a b => node_frame_agree (negb (snd a) && negb (snd b)) (fst a) (fst b))
+        (do g <- eval e; let '(g1, oc1) := infer_types g in
+         if twice then let '(g2, oc2) := infer_types g1 in Ok (g2, raised oc1 || raised oc2)
+         else Ok (g1, raised oc1)) obs
   | CCheck e obs =>
       res_agree Bool.eqb (do g <- eval e; check_types g) obs
   | CFromList es obs =>
@@ -239,6 +270,9 @@ Definition gmodel (c : gcase) : gres :=
   | CInfer e _ => RNodeB (do g <- eval e; let '(g', oc) := infer_types g in Ok (g', raised oc))
   | CInfer2 e _ => RNodeB (do g <- eval e; let '(g1, _) := infer_types g in
                            let '(g2, oc) := infer_types g1 in Ok (g2, raised oc))
+  | CInferFrame twice e _ => RNodeB (do g <- eval e; let '(g1, oc1) := infer_types g in
+                           if twice then let '(g2, oc2) := infer_types g1 in Ok (g2, raised oc1 || raised oc2)
+                           else Ok (g1, raised oc1))
   | CCheck e _ => RBool (do g <- eval e; check_types g)
   | CFromList es _ => RNode (do ns <- mapM eval es; from_list ns)
   | COps e ops _ => RNode (do g <- eval e; apply_ops ops g)
@@ -251,7 +285,7 @@ Definition gmodel (c : gcase) : gres :=
 Definition gobs (c : gcase) : gres :=
   match c with
   | CBuild _ o | CFromList _ o | COps _ _ o | CFromDict _ o | CRead _ o => RNode o
-  | CInfer _ o | CInfer2 _ o => RNodeB o
+  | CInfer _ o | CInfer2 _ o | CInferFrame _ _ o => RNodeB o
   | CCheck _ o => RBool o
   | CToDict _ o => RVal o
   | CWrite _ o => RH5 o
